@@ -80,7 +80,7 @@ StartHuntM(m, ip) ==
      THEN /\ UNCHANGED <<hunt, loops>>
           /\ ev' = [kind |-> "start", mac |-> m, ip |-> ip, err |-> FALSE, spawned |-> 0]
      ELSE /\ hunt' = [hunt EXCEPT ![m] = ip]
-          /\ loops' = Append(loops, [mac |-> m, ip |-> ip, pc |-> "check", tgt |-> m])
+          /\ loops' = Append(loops, [mac |-> m, ip |-> ip, pc |-> "check", tgt |-> m, cl |-> FALSE])
           /\ ev' = [kind |-> "start", mac |-> m, ip |-> ip, err |-> FALSE, spawned |-> 1]
 
 \* n overlapping StartHunt(m, ip) calls observed together (all have returned): the mutex serialises them, so the
@@ -94,7 +94,7 @@ ConcStartM(m, ip, n) ==
      THEN /\ UNCHANGED <<hunt, loops>>
           /\ ev' = [kind |-> "cstart", mac |-> m, ip |-> ip, n |-> n, errs |-> 0, spawned |-> 0]
      ELSE /\ hunt' = [hunt EXCEPT ![m] = ip]
-          /\ loops' = Append(loops, [mac |-> m, ip |-> ip, pc |-> "check", tgt |-> m])
+          /\ loops' = Append(loops, [mac |-> m, ip |-> ip, pc |-> "check", tgt |-> m, cl |-> FALSE])
           /\ ev' = [kind |-> "cstart", mac |-> m, ip |-> ip, n |-> n, errs |-> 0, spawned |-> 1]
 
 \* deviation variant RacyStart: the membership test and the insert are two critical sections
@@ -108,7 +108,7 @@ StartInsertM(m) ==
   /\ UNCHANGED <<closed, offer, hostOf>> /\ out' = <<>>
   /\ pend' = [pend EXCEPT ![m] = Tail(@)]
   /\ hunt' = [hunt EXCEPT ![m] = Head(pend[m])]
-  /\ loops' = Append(loops, [mac |-> m, ip |-> Head(pend[m]), pc |-> "check", tgt |-> m])
+  /\ loops' = Append(loops, [mac |-> m, ip |-> Head(pend[m]), pc |-> "check", tgt |-> m, cl |-> FALSE])
   /\ ev' = [kind |-> "sinsert", mac |-> m, ip |-> Head(pend[m]), spawned |-> 1]
 
 StopHuntM(m) ==
@@ -140,19 +140,20 @@ LoopCheckFromM(l, t, pcs) ==
   /\ UNCHANGED <<hunt, closed, offer, hostOf, pend>> /\ out' = <<>>
   /\ IF Found(l) = {}
      THEN /\ t = NilMAC
-          /\ loops' = [loops EXCEPT ![l].pc = "correct"]
+          /\ loops' = [loops EXCEPT ![l].pc = "correct", ![l].cl = closed]
           /\ ev' = [kind |-> "check", l |-> l, hunting |-> FALSE, tgt |-> NilMAC]
      ELSE /\ t \in Found(l)
-          /\ loops' = [loops EXCEPT ![l].pc = "send", ![l].tgt = t]
+          /\ loops' = [loops EXCEPT ![l].pc = "send", ![l].tgt = t, ![l].cl = closed]
           /\ ev' = [kind |-> "check", l |-> l, hunting |-> TRUE, tgt |-> t]
 
 LoopCheckM(l, t) == LoopCheckFromM(l, t, {"check"})
 
-\* spoof.go:86-116: `closed` is read after the mutex is released
+\* spoof.go: since f0fba2f `closed` is read into a local under the mutex together with the membership lookup (cl);
+\* a Close between the check and the action no longer changes what the loop does in this cycle
 LoopActM(l) ==
   /\ loops[l].pc \in {"send", "correct"}
   /\ UNCHANGED <<hunt, closed, offer, hostOf, pend>>
-  /\ IF closed
+  /\ IF loops[l].cl
      THEN /\ loops' = [loops EXCEPT ![l].pc = "done"] /\ out' = <<>>
           /\ ev' = [kind |-> "act", l |-> l, done |-> TRUE]
      ELSE IF loops[l].pc = "correct"
@@ -204,14 +205,14 @@ RecvM(op, es, sm, si, ti) ==
 -----------------------------------------------------------------------------
 (* property level: reference variables, updated from the call log and the observable events only *)
 
-NoPre == [hunted |-> FALSE, valid |-> FALSE, snap |-> {}, mac |-> NilMAC, zombie |-> FALSE]
+NoPre == [hunted |-> FALSE, valid |-> FALSE, snap |-> {}, snapClosed |-> TRUE, mac |-> NilMAC, zombie |-> FALSE]
 
 StartHuntR(m, ip, n) ==          \* n: number of loop instances that announce themselves after the call
   LET valid == m # NilMAC /\ ip \in IP4 IN
   /\ pre' = [NoPre EXCEPT !.hunted = m \in refHunt, !.valid = valid, !.mac = m]
   /\ refHunt' = IF valid THEN refHunt \cup {m} ELSE refHunt
   /\ UNCHANGED <<refClosed, refOffer, poisoned>>
-  /\ rl' = rl \o [i \in 1..n |-> [mac |-> m, alive |-> TRUE, snap |-> {}, fresh |-> FALSE, cur |-> TRUE]]
+  /\ rl' = rl \o [i \in 1..n |-> [mac |-> m, alive |-> TRUE, snap |-> {}, snapClosed |-> TRUE, fresh |-> FALSE, cur |-> TRUE]]
 
 StopHuntR(m) ==
   /\ pre' = [NoPre EXCEPT !.hunted = m \in refHunt, !.mac = m]
@@ -227,7 +228,7 @@ OfferR(m, ip) == /\ refOffer' = [refOffer EXCEPT ![m] = ip] /\ pre' = NoPre
 
 \* a membership check of loop l: from now on one forged frame to a MAC hunted at this instant is allowed
 LoopCheckR(l) ==
-  /\ rl' = [rl EXCEPT ![l].snap = refHunt, ![l].fresh = TRUE]
+  /\ rl' = [rl EXCEPT ![l].snap = refHunt, ![l].snapClosed = refClosed, ![l].fresh = TRUE]
   /\ pre' = [NoPre EXCEPT !.zombie = ~rl[l].alive, !.mac = rl[l].mac]
   /\ UNCHANGED <<refHunt, refClosed, refOffer, poisoned>>
 
@@ -247,7 +248,7 @@ Poison(p, fs) ==
        IN Poison(p1, Tail(fs))
 
 LoopActR(l) ==
-  /\ pre' = [NoPre EXCEPT !.snap = IF rl[l].fresh THEN rl[l].snap ELSE {}, !.mac = rl[l].mac]
+  /\ pre' = [NoPre EXCEPT !.snap = IF rl[l].fresh THEN rl[l].snap ELSE {}, !.snapClosed = ~rl[l].fresh \/ rl[l].snapClosed, !.mac = rl[l].mac]
   /\ rl' = [rl EXCEPT ![l].fresh = FALSE, ![l].alive = ~ev'.done]
   /\ poisoned' = Poison(poisoned, out')
   /\ UNCHANGED <<refHunt, refClosed, refOffer>>
@@ -313,7 +314,7 @@ P_RejectOnlyIf ==
 \*  (c) once no loop can still legitimately send to m, m's last word from us is not a forgery.
 P_UndoContinue == /\ ev.kind = "act" /\ ~ev.done => pre.mac \in pre.snap
                   /\ ev.kind = "check" => ~pre.zombie              \* a loop that ended stays ended
-P_UndoRestore  == ev.kind = "act" /\ ev.done /\ ~refClosed =>
+P_UndoRestore  == ev.kind = "act" /\ ev.done /\ ~refClosed =>          \* (a Close before or during the cycle cancels the obligation)
                      /\ \E f \in OfKind("restore") : f.ed = pre.mac
                      /\ OfKind("forged") = {}
 P_UndoQuiet    == \A m \in Targets :
@@ -335,9 +336,10 @@ P_Idempotent ==
         /\ (~refClosed => ev.spawned = (IF pre.valid /\ ~pre.hunted THEN 1 ELSE 0))
   /\ ~refClosed => \A m \in Targets : Cardinality({l \in 1..Len(rl) : rl[l].mac = m /\ rl[l].cur}) <= 1
 
-\* "Close stops all loops": a loop that continues after a check saw the handler open when it acted
+\* "Close stops all loops": a loop that continues after a check saw the handler open at that check (reading as
+\* for StopHunt: the cycle already past its check when Close is called may complete; the next check ends the loop)
 \* (the wake-up half is the `stuck` observation of the trace specification / the fairness config)
-P_CloseStops == /\ ev.kind = "act" /\ ~ev.done => ~refClosed
+P_CloseStops == /\ ev.kind = "act" /\ ~ev.done => ~pre.snapClosed
                 /\ ev.kind = "close" => ev.stuck = {}
 
 \* the list the handler reports is the list the call log defines
